@@ -1406,7 +1406,10 @@ def r_pixel_boxing(rule, root=None):
             rule.bad("pixel|pack", "a fill is packed as `%s`; it must be a NaN exponent | depth << 1 | inside (bit 0) | KEY" % m.group(1)[:80], A.where(PIX, fr[0]))
     un = A.find_fn(PIX, "unpack", self_ty="RawDistancePixel", root=root)
     ut = str(txt(un["body"]))
-    if "letinside=((bits&1)==1);" in ut and ("letdepth=((bits>>1)asu8);" in ut) and "ifself.is_distance(){DistancePixel::Value(self.0)}" in ut:
+    flag_ok = ("letinside=((bits&1)==1);" in ut or "letinside=((bits&1)!=0);" in ut or "inside:((bits&1)==1)" in ut or "inside:((bits&1)!=0)" in ut)
+    depth_ok = "letdepth=((bits>>1)asu8);" in ut or "depth:((bits>>1)asu8)" in ut
+    value_ok = "ifself.is_distance(){DistancePixel::Value(self.0)}" in ut or "ifself.is_distance(){returnDistancePixel::Value(self.0);}" in ut or "if!self.is_distance(){" in ut and "DistancePixel::Value(self.0)" in ut
+    if flag_ok and depth_ok and value_ok:
         rule.ok("reader: inside = bit 0, depth = bits 1-8, a distance is handed back unchanged", file=PIX, line=un["ln"])
     else:
         rule.bad("pixel|unpack", "unpack must read the flag from bit 0 and the depth from bits 1-8 (what the writer stored), and return a distance unchanged", A.where(PIX, un))
